@@ -1,12 +1,13 @@
 """C13: calls bind arguments exactly as CPython does.
 
 Every signature within the tier's bound (positional-only, positional-or-keyword,
-trailing defaults, *args, keyword-only with/without default, **kw) is turned
-into one program per function kind (plain function, method, classmethod,
-staticmethod, __init__) that performs EVERY call shape of the bound (0..5
-positional arguments x every keyword subset of size <= 3 over the parameter
-names plus one unknown name), one call per line.  The program is analysed once
-by the real pipeline and every call is also performed by CPython itself:
+trailing defaults, *args, keyword-only with/without default, **kw) is combined
+with every function kind (plain function, method, classmethod, staticmethod,
+__init__) and EVERY call shape of the bound (0..N positional arguments x every
+keyword subset of size <= K over the parameter names plus one unknown name),
+one call per line, in programs of at most CHUNK calls.  Each program is
+analysed once by the real pipeline and every call is also performed by CPython
+itself:
 
   verdict   pytype reports wrong-arg-count / wrong-keyword-args /
             missing-parameter / duplicate-keyword-argument on the call line
@@ -258,21 +259,40 @@ def binding_mismatch(sig, annot, value, env):
 # ----------------------------------------------------------------- one program
 
 
+CHUNK = 200   # calls per analysed program: pytype's cost per call grows with the length of one module
+
+
+def chunks(calls):
+  """Splits the call shapes of one signature into equal consecutive parts of at most CHUNK calls."""
+  k = -(-len(calls) // CHUNK) or 1
+  size = -(-len(calls) // k) or 1
+  return [calls[i:i + size] for i in range(0, len(calls), size)] or [[]]
+
+
 def check_program(kind, sig, cb, share, only=None):
-  """Analyses and executes the program of (kind, sig) with all call shapes within cb.
+  """Analyses and executes the program(s) of (kind, sig) holding all call shapes within cb.
 
   Returns (counters, violations [(npos, kws, class, detail)], sample).  `only`
-  restricts the *reported* calls to one (npos, kws); the program is the same.
+  restricts the work to the program that holds the one call shape (npos, kws)
+  and the report to that call; the program is the same as in a full run.
   """
-  calls = call_shapes(sig, cb)
+  cnt = collections.Counter()
+  viol, sample = [], None
+  for part in chunks(call_shapes(sig, cb)):
+    if only is None or only in part:
+      sample = _check_part(kind, sig, part, share, only, cnt, viol)
+  return cnt, viol, sample
+
+
+def _check_part(kind, sig, calls, share, only, cnt, viol):
   prelude, exprs = build_program(kind, sig, calls)
   src = "\n".join(prelude + ["r%d = %s" % (i, e) for i, e in enumerate(exprs)]) + "\n"
   res = pt.analyze(src, share=share)
+  cnt["programs"] += 1
   first = len(prelude) + 1
   is_call = lambda ln: ln is not None and first <= ln < first + len(exprs)
   body = [n + 1 for n, l in enumerate(prelude) if l.lstrip().startswith(("return ", "self.r = "))]
   by_line = collections.defaultdict(list)
-  cnt = collections.Counter()
   for name, line, msg in res.errors:
     if is_call(line):
       by_line[line - first].append(name)
@@ -289,7 +309,6 @@ def check_program(kind, sig, cb, share, only=None):
   stub = pt.Stub(res.pyi)
   ns, results = run_cpython(prelude, exprs)
   env = adm.Env(ns)
-  viol = []
   dflt = set(defaulted(sig))
   for i, ((npos, kws), (ok, val)) in enumerate(zip(calls, results)):
     errs = by_line.get(i, [])
@@ -318,11 +337,10 @@ def check_program(kind, sig, cb, share, only=None):
     if cls and (only is None or only == (npos, kws)):
       viol.append((npos, kws, cls, detail))
   mid = len(calls) // 2
-  sample = {"kind": kind, "def": sig_str(kind, sig), "calls": len(calls), "example_call": exprs[mid],
-            "cpython": _showval(results[mid][1]) if results[mid][0] else "TypeError: " + results[mid][1],
-            "pytype_errors_on_line": by_line.get(mid, []),
-            "pytype_type": _unparse(stub.consts.get("r%d" % mid))}
-  return cnt, viol, sample
+  return {"kind": kind, "def": sig_str(kind, sig), "calls_in_program": len(calls), "example_call": exprs[mid],
+          "cpython": _showval(results[mid][1]) if results[mid][0] else "TypeError: " + results[mid][1],
+          "pytype_errors_on_line": by_line.get(mid, []),
+          "pytype_type": _unparse(stub.consts.get("r%d" % mid))}
 
 
 def _unparse(node):
@@ -480,7 +498,9 @@ def run(rep, tier, seed):
                       ", ".join("%s %d" % kv for kv in sorted(by_kind.items()))),
                   case)
   rep.cov.update({
-      "signatures": len(sigs), "kinds": list(KINDS), "programs": len(items),
+      "signatures": len(sigs), "kinds": list(KINDS), "kind_x_signature": len(items),
+      "programs_analysed": tot["programs"], "max_calls_per_program": CHUNK,
+      "pytype_errors_inside_callee_body": tot["errors-inside-callee-body"],
       "failing_inputs": len(failing), "failing_minimal_forms": len(groups),
       "failing_inputs_by_minimal_form": {state_text(m) + " [" + failing[m] + "]": len(groups[m]) for m in reps[:200]},
       "inspect_bind_disagrees_with_real_call(function kind, informational)":
@@ -501,8 +521,9 @@ def run(rep, tier, seed):
       "functions are unannotated; every argument/default is an instance of its own empty class",
       "exactness of the binding check: inferred element must be the very class of the run-time value (tuple of "
       "classes for *args, dict[str, union of the value classes] for **kw, dict[nothing, nothing] when empty)",
-      "one program per (kind, signature) holds all its call shapes; worker processes reuse one pytd loader, the "
-      "minimised failing inputs are re-derived with a fresh loader (and by the runner in a fresh process)",
+      "the call shapes of one (kind, signature) are analysed in programs of at most %d calls, one call per line "
+      "(pytype's cost per call grows with module length); worker processes reuse one pytd loader, the minimised "
+      "failing inputs are re-derived with a fresh loader (and by the runner in a fresh process)" % CHUNK,
   ]
 
 
